@@ -14,6 +14,31 @@ pub enum Ev {
 
 pub type Log = Rc<RefCell<Vec<Ev>>>;
 
+/// When >= 0, every event is also written immediately to this file descriptor (used for runs
+/// that are expected not to return, so that the parent sees the events produced so far).
+pub static STREAM_FD: std::sync::atomic::AtomicI32 = std::sync::atomic::AtomicI32::new(-1);
+
+fn ev_text(e: &Ev) -> String {
+    match e {
+        Ev::In(b) => format!("I:{b:02x}"),
+        Ev::Eof => "I:eof".to_string(),
+        Ev::InFail => "I:!".to_string(),
+        Ev::Out(b) => format!("O:{b:02x}"),
+        Ev::OutFail(b) => format!("O!:{b:02x}"),
+    }
+}
+
+fn record(log: &Log, e: Ev) {
+    let fd = STREAM_FD.load(std::sync::atomic::Ordering::Relaxed);
+    if fd >= 0 {
+        let t = format!("{} ", ev_text(&e));
+        unsafe {
+            libc::write(fd, t.as_ptr() as *const _, t.len());
+        }
+    }
+    log.borrow_mut().push(e);
+}
+
 #[derive(Clone, Debug)]
 pub struct Env {
     pub input: Vec<u8>,
@@ -61,16 +86,16 @@ impl Read for LogRead {
         let idx = self.requests;
         self.requests += 1;
         if self.fail_at == Some(idx) {
-            self.log.borrow_mut().push(Ev::InFail);
+            record(&self.log, Ev::InFail);
             return Err(io::Error::new(io::ErrorKind::Other, "injected input failure"));
         }
         if self.pos < self.data.len() {
             buf[0] = self.data[self.pos];
             self.pos += 1;
-            self.log.borrow_mut().push(Ev::In(buf[0]));
+            record(&self.log, Ev::In(buf[0]));
             Ok(1)
         } else {
-            self.log.borrow_mut().push(Ev::Eof);
+            record(&self.log, Ev::Eof);
             Ok(0)
         }
     }
@@ -90,11 +115,11 @@ impl Write for LogWrite {
         let idx = self.count;
         self.count += 1;
         if self.fail_at == Some(idx) {
-            self.log.borrow_mut().push(Ev::OutFail(buf[0]));
+            record(&self.log, Ev::OutFail(buf[0]));
             // alternate the two refusal styles: full sink (Ok(0)) and error
             return if idx % 2 == 0 { Ok(0) } else { Err(io::Error::new(io::ErrorKind::Other, "injected output failure")) };
         }
-        self.log.borrow_mut().push(Ev::Out(buf[0]));
+        record(&self.log, Ev::Out(buf[0]));
         Ok(1)
     }
     fn flush(&mut self) -> io::Result<()> {
@@ -123,13 +148,7 @@ pub fn trace_string(log: &Log) -> String {
         return "-".into();
     }
     l.iter()
-        .map(|e| match e {
-            Ev::In(b) => format!("I:{b:02x}"),
-            Ev::Eof => "I:eof".to_string(),
-            Ev::InFail => "I:!".to_string(),
-            Ev::Out(b) => format!("O:{b:02x}"),
-            Ev::OutFail(b) => format!("O!:{b:02x}"),
-        })
+        .map(ev_text)
         .collect::<Vec<_>>()
         .join(" ")
 }
